@@ -221,6 +221,7 @@ pub fn run(e: &'static Engine) {
          differ; every other module must be identical; un-masking each symbol with the mask named in its own format information \
          gives one identical matrix. Non-trivial: every case (8 builds, 28 pairs); distinct by hash of (input, options).",
     );
+    e.extend_rule("part default_level_edge (level left to its default, lengths up to beyond the default level's capacity: refused builds are skipped); part cold_first_use_all_masks (the eight pinned masks as the first use of the crate in a fresh process on 16 threads, against this process's sequential digests); extreme textures.");
     e.assume("ISO Table 10 conditions with i=row, j=column as implemented in refmodel::geom::mask_cond (the qrcode-crate self-test decodes only with these)");
     crate::engine::run_regress(e, &|c, o| replay(e, c, o));
     let per: u32 = e.tier.pick(1, 6);
